@@ -7,7 +7,7 @@ import AurelVerif.Lemmas.C05Lie
 set_option linter.unusedSimpArgs false
 set_option linter.unusedVariables false
 
-namespace AurelVerif.C05
+namespace AurelVerif.C05L
 open AurelVerif.Gen.Core AurelVerif.Tensor AurelVerif.CoreTac AurelVerif.C08 AurelVerif.Spec.Covd
 
 variable {K : Type} [Field K]
@@ -22,4 +22,4 @@ theorem s_curl_dd_spec (e : Env K) (f : Fin 3 → Fin 3 → K) (a b : Fin 3) :
     (simp only [core_unfold, curlRaw, LCuud3, Fin.sum_univ_three, Fin.sum_univ_four, zero_mul, mul_zero,
        add_zero, zero_add]; ring)
 
-end AurelVerif.C05
+end AurelVerif.C05L
